@@ -244,6 +244,7 @@ def plan(prop, tier, seed):
             legs.append(lambda: lab_leg("LabCF", 2, 16, DECIMAL, seed, overrides=DEC_OVR, tag="dec"))
         if prop in ("C01", "C02", "C04", "C07"):
             legs.append(lambda: lab_leg("LabDUP", 2, 8 if q else 16, REALISTIC, seed))
+            legs.append(lambda: lab_leg("LabTWIN", 2, 4, REALISTIC, seed))
         if prop in ("C01", "C02", "C03", "C04", "C07", "C10", "C11", "C17", "C19"):
             legs.append(lambda: lab_leg("LabPL", 1 if q else 2, 8 if q else 16, REALISTIC, seed))
             legs.append(lambda: lab_leg("LabPL", 2, 16, DECIMAL, seed, overrides=dict(DEC_OVR, Fracs="PL_FracsQuick", TUnits="QuickUnits"), tag="q2") if q
